@@ -22,6 +22,9 @@ CHECKS = {
     "C04": dict(level="model_checking", tech="symbolic differential: real tokenizer vs declarative greedy segmentation on the same symbolic stream, z3 decides equality per path",
                 text="Bounded equivalence (N<=6 quick / 10 thorough frames, unbounded parameters, 4 modes) between the real tokenizer and a reference written from the statement; consequences asserted separately.",
                 ref="§5 C04"),
+    "C05": dict(level="model_checking", tech="symbolic execution of split() over an uninterpreted byte sequence (segment lists + LIA), z3 decides byte identity, timing and equality with the tokenizer segmentation",
+                text="Real split()/AudioRegion.split chain on inputs of <=4 (quick) / 6 (thorough) analysis windows with sample count, window size and window counts as unbounded integers; formats and rates enumerated.",
+                ref="§5 C05"),
     "C08": dict(level="model_checking", tech="symbolic execution + z3: 3+N real runs per path (generator, callback, list, every prefix) with a counting source",
                 text="Hand-over moment, single end-of-stream request, delivery-mode equality and prefix consistency decided per path for streams of <=5 (quick) / 8 (thorough) frames with unbounded parameters; split() laziness on the byte-level harness.",
                 ref="§5 C08"),
